@@ -569,7 +569,7 @@ def shard(arg):
     compare(cases, res, 'match-eager')
     compare(cases, res, 'match-lazy', 'lazy')
     compare(cases, res, 'match-spec', 'spec')
-    n_real = max(1, n_corr // 2)
+    n_real = max(1, n_corr // 4)
     rcases = []
     for k in range(n_real):
         if k % 2 == 0:
